@@ -1,7 +1,26 @@
-//! Implementation-side evaluator for the `shellwords` correspondence checks (see props/).
+//! Implementation-side evaluator for the `shellwords` correspondence checks (props/C15.py): the
+//! real `shell_words::{quote, join, split}` at the version nextest links.
+use crate::common::strs;
 use serde_json::{json, Value};
 
+fn split_json(s: &str) -> Value {
+    match shell_words::split(s) {
+        Ok(ws) => json!({ "ok": ws }),
+        Err(_) => json!({ "err": "parse" }),
+    }
+}
+
 pub fn run(case: &Value) -> Value {
-    let _ = case;
-    json!({ "error": "not implemented" })
+    match case["op"].as_str().unwrap_or("") {
+        "quote" => json!(shell_words::quote(case["s"].as_str().unwrap()).into_owned()),
+        "join" => json!(shell_words::join(strs(&case["words"]))),
+        "split" => split_json(case["s"].as_str().unwrap()),
+        // join, then split what join produced (what create_command + DoubleSpawnOpts::exec do)
+        "roundtrip" => {
+            let joined = shell_words::join(strs(&case["words"]));
+            let back = split_json(&joined);
+            json!({ "joined": joined, "split": back })
+        }
+        other => json!({ "error": format!("unknown op {other}") }),
+    }
 }
